@@ -1,20 +1,27 @@
-"""Translator for small pure functions (tie of the first kind: the model is regenerated from the source).
+"""Translator for small pure functions and guards (tie of the first kind: the model is regenerated from the source).
 
-A deliberately tiny Python → Lean translator (`ast` only).  It understands exactly the statement and
-expression forms listed below; anything else makes the function "not translatable" and its obligation is
+A deliberately small Python → Lean translator (`ast` only).  It understands exactly the statement and
+expression forms listed below; anything else makes a target "not translatable" and its obligation is
 reported as broken (never silently skipped).  The translated definitions go to
 `lean/Robotools/Generated/Fns.lean`; `lean/Robotools/Proofs/GenFns.lean` proves each of them equal to the
 hand-written model function the property theorems are about, so after a source change either the proof
 still goes through (harmless rewrite) or an obligation breaks and the check starts its failing-input search.
 
-Numbers: every Python number becomes a `Rat` (exact); `math.ceil(x)` becomes `((Rat.ceil x : Int) : Rat)`;
-`[e] * k` becomes `List.replicate (Rat.floor k).toNat e`; `numpy.sum(l)` becomes `List.sum l`.
-This is the exact-arithmetic reading of the code (DESIGN §3.1): the binary64 behaviour outside the exactness
-envelope is not what the translation captures.
+Numbers: in a `Rat` target every Python number becomes a `Rat` (exact); `math.ceil(x)` becomes
+`((Rat.ceil x : Int) : Rat)`.  In an `Int` target numbers are `Int`, `//` is floor division (`Int.fdiv`),
+`len(x)` is `(x.length : Int)`.  This is the exact-arithmetic reading of the code (DESIGN §3.1): the binary64
+behaviour outside the exactness envelope is not what the translation captures.  Python objects the translation
+has to give a meaning to (insertion-ordered dicts as association lists, list repetition, slicing) are the
+definitions of `lean/Robotools/Generated/Prelude.lean` — hand-written, a dozen lines, part of the trusted base.
 
-Statements : docstring, `x = e`, `x: T = e`, `x.append(e)`, `if c: return e`, `if c: x = e`, `return e`
-Expressions: names, int/float constants, `[e, …]`, `a op b` for + - * /, comparisons == != < <= > >=,
-             `math.ceil(e)`, `numpy.sum(e)`, `[e] * k`
+Statements : docstring, `x = e`, `x: T = e`, `x.append(e)`, `d[k] = e`, `d[k] += e`, `if c: return e`,
+             `if c: raise E(..)`, `if c: x = e` / `if c: d[k] = e` (no else), `if c: x = a else: x = b`,
+             `if/elif/else` chains of returns, `for k, f in d.items(): <simple statements on one dict>`,
+             `return e`, `raise E(..)`; logging calls and isinstance-asserts are skipped (listed per target)
+Expressions: names, numbers, strings, `[e, …]`, `a op b` for + - * / // , comparisons, `not`, `and`, `or`,
+             `k in d` / `not k in d`, `x in {..literals..}`, `math.ceil(e)`, `numpy.sum(e)`, `[e] * k`,
+             `xs * k` (list repetition), `xs[:n]`, `len(xs)`, `dict(d)`, `{k: e for k, f in d.items()}`,
+             attribute reads listed in the target's `attrs` map (e.g. `source.is_trough`)
 """
 from __future__ import annotations
 
@@ -30,114 +37,341 @@ class Unsupported(Exception):
     pass
 
 
-# (source file, function name, Lean name, parameter names → Lean binder, return type)
+# Each target: source file, function (Class.method allowed), Lean name, Lean binder, Lean result type, options:
+#   num     : "Rat" | "Int"  — the type of number literals
+#   raises  : the function may raise; result type is `Except String <rty>` and every `return e` becomes `.ok e`
+#   attrs   : unparsed attribute / subscript expressions that are read as parameters
+#   dicts   : local / parameter names that are dicts (association lists `Py.Dict`)
+#   lists   : names that are lists
+#   skip    : predicates on unparsed statements that are ignored (logging, type assertions)
+#   slice   : ("loop", var-substring, stop-substring) — translate the body of the first `for` loop whose header mentions
+#             `var-substring`, up to (excluding) the first statement whose text contains `stop-substring`;
+#             the translated function returns `result`
 TARGETS = [
-    ("robotools/worklists/utils.py", "partition_volume", "partition_volume", "(volume max_volume : Rat)", "List Rat"),
+    dict(file="robotools/worklists/utils.py", func="partition_volume", lean="partition_volume",
+         binder="(volume max_volume : Rat)", rty="List Rat", num="Rat"),
+    dict(file="robotools/liquidhandling/labware.py", func="Labware.add", lean="labware_add_step",
+         binder="(cur volume max_volume : Rat)", rty="Rat", num="Rat", raises=True,
+         slice=("loop", "compositions", "composition is not None"), result="cur",
+         attrs={"self._volumes[idx]": "cur", "self.max_volume": "max_volume"}, skip=["idx = self.indices[well]"]),
+    dict(file="robotools/liquidhandling/labware.py", func="Labware.remove", lean="labware_remove_step",
+         binder="(cur volume min_volume : Rat)", rty="Rat", num="Rat", raises=True,
+         slice=("loop", "volumes", "\0never"), result="cur",
+         attrs={"self._volumes[idx]": "cur", "self.min_volume": "min_volume"}, skip=["idx = self.indices[well]"]),
+    dict(file="robotools/liquidhandling/composition.py", func="combine_composition", lean="combine_composition",
+         binder="(volume_A : Rat) (composition_A : Py.Dict) (volume_B : Rat) (composition_B : Py.Dict)", rty="Py.Dict",
+         num="Rat", dicts=["composition_A", "composition_B", "volumetric_fractions", "new_composition"],
+         skip=["if composition_A is None or composition_B is None:"]),
+    dict(file="robotools/worklists/utils.py", func="optimize_partition_by", lean="optimize_partition_by",
+         binder="(source_is_trough destination_is_trough : Bool) (partition_by : String)", rty="String", num="Int",
+         raises=True, attrs={"source.is_trough": "source_is_trough", "destination.is_trough": "destination_is_trough"},
+         skip=["logger.warning"]),
+    dict(file="robotools/utils.py", func="get_trough_wells", lean="get_trough_wells",
+         binder="(n : Int) (trough_wells : List String)", rty="List String", num="Int", raises=True,
+         lists=["trough_wells"], skip=["if not isinstance(n, int):", "trough_wells = list(numpy.asarray(trough_wells).flatten('F'))"]),
 ]
 
 
 class Tr:
-    def __init__(self):
-        self.list_vars: set[str] = set()
+    def __init__(self, t: dict):
+        self.t = t
+        self.num = t.get("num", "Rat")
+        self.raises = t.get("raises", False)
+        self.attrs = t.get("attrs", {})
+        self.dicts = set(t.get("dicts", []))
+        self.lists = set(t.get("lists", []))
+        self.skip = t.get("skip", [])
 
     # ---------------------------------------------------------------- expressions
+    def lit(self, v) -> str:
+        if isinstance(v, bool):
+            return "true" if v else "false"
+        if isinstance(v, str):
+            if any(ord(c) > 126 or c in '"\\' or ord(c) < 32 for c in v):
+                raise Unsupported("string literal")
+            return f'"{v}"'
+        if isinstance(v, (int, float)):
+            if self.num == "Int":
+                if isinstance(v, float) and not v.is_integer():
+                    raise Unsupported("float literal in an Int target")
+                return f"({int(v)} : Int)"
+            if isinstance(v, float) and not v.is_integer():
+                n, d = v.as_integer_ratio()
+                return f"(({n} : Rat) / {d})"
+            return f"({int(v)} : Rat)"
+        raise Unsupported(f"constant {v!r}")
+
     def expr(self, e: ast.AST) -> str:
+        src = ast.unparse(e)
+        if src in self.attrs:
+            return self.attrs[src]
         if isinstance(e, ast.Name):
             return e.id
         if isinstance(e, ast.Constant):
-            if isinstance(e.value, bool) or not isinstance(e.value, (int, float)):
-                raise Unsupported(f"constant {e.value!r}")
-            if isinstance(e.value, float) and not e.value.is_integer():
-                n, d = e.value.as_integer_ratio()
-                return f"(({n} : Rat) / {d})"
-            return f"({int(e.value)} : Rat)"
+            return self.lit(e.value)
         if isinstance(e, ast.List):
             return "[" + ", ".join(self.expr(x) for x in e.elts) + "]"
         if isinstance(e, ast.BinOp):
-            # [e] * k  (list repetition)
+            # [e] * k  (list repetition of a singleton) / xs * k (list repetition)
             if isinstance(e.op, ast.Mult) and isinstance(e.left, ast.List) and len(e.left.elts) == 1:
-                return f"(List.replicate (Rat.floor {self.atom(e.right)}).toNat {self.atom(e.left.elts[0])})"
+                if self.num == "Rat":
+                    return f"(List.replicate (Rat.floor {self.atom(e.right)}).toNat {self.atom(e.left.elts[0])})"
+                return f"(List.replicate (Int.toNat {self.atom(e.right)}) {self.atom(e.left.elts[0])})"
+            if isinstance(e.op, ast.Mult) and isinstance(e.left, ast.Name) and e.left.id in self.lists:
+                return f"(Py.repeat {e.left.id} {self.atom(e.right)})"
+            if isinstance(e.op, ast.FloorDiv):
+                if self.num != "Int":
+                    raise Unsupported("// in a Rat target")
+                return f"(Int.fdiv {self.atom(e.left)} {self.atom(e.right)})"
             ops = {ast.Add: "+", ast.Sub: "-", ast.Mult: "*", ast.Div: "/"}
-            if type(e.op) not in ops:
+            if type(e.op) not in ops or (isinstance(e.op, ast.Div) and self.num == "Int"):
                 raise Unsupported(f"operator {type(e.op).__name__}")
             return f"({self.expr(e.left)} {ops[type(e.op)]} {self.expr(e.right)})"
+        if isinstance(e, ast.Subscript):
+            if isinstance(e.value, ast.Name) and e.value.id in self.dicts:
+                return f"(Py.dget {e.value.id} {self.atom(e.slice)})"
+            if isinstance(e.value, ast.Name) and e.value.id in self.lists and isinstance(e.slice, ast.Slice) \
+                    and e.slice.lower is None and e.slice.step is None and e.slice.upper is not None:
+                return f"(List.take (Int.toNat {self.atom(e.slice.upper)}) {e.value.id})"
+            if isinstance(e.slice, ast.Slice) and e.slice.lower is None and e.slice.step is None and e.slice.upper is not None:
+                return f"(List.take (Int.toNat {self.atom(e.slice.upper)}) {self.atom(e.value)})"
+            raise Unsupported("subscript " + src)
+        if isinstance(e, ast.DictComp):
+            # {k: <expr in k, v> for k, v in d.items()}
+            g = e.generators[0]
+            if len(e.generators) != 1 or g.ifs or not (isinstance(g.iter, ast.Call) and isinstance(g.iter.func, ast.Attribute)
+                                                        and g.iter.func.attr == "items" and isinstance(g.target, ast.Tuple)
+                                                        and len(g.target.elts) == 2 and all(isinstance(x, ast.Name) for x in g.target.elts)):
+                raise Unsupported("dict comprehension " + src)
+            k, v = (x.id for x in g.target.elts)
+            if ast.unparse(e.key) != k:
+                raise Unsupported("dict comprehension key")
+            d = ast.unparse(g.iter.func.value)
+            return f"(List.map (fun (p : String × Rat) => let {k} := p.1; let {v} := p.2; ({k}, {self.expr(e.value)})) {d})"
         if isinstance(e, ast.Call):
             fn = ast.unparse(e.func)
             if fn == "math.ceil" and len(e.args) == 1 and not e.keywords:
                 return f"(((Rat.ceil {self.atom(e.args[0])} : Int)) : Rat)"
             if fn in ("numpy.sum", "np.sum", "sum") and len(e.args) == 1 and not e.keywords:
                 return f"(List.sum {self.atom(e.args[0])})"
+            if fn == "len" and len(e.args) == 1:
+                return f"((List.length {self.atom(e.args[0])} : Nat) : Int)"
+            if fn == "dict" and len(e.args) == 1 and isinstance(e.args[0], ast.Name) and e.args[0].id in self.dicts:
+                return e.args[0].id
             raise Unsupported(f"call {fn}")
-        raise Unsupported(type(e).__name__)
+        if isinstance(e, ast.IfExp):
+            return f"(if {self.cond(e.test)} then {self.expr(e.body)} else {self.expr(e.orelse)})"
+        raise Unsupported(type(e).__name__ + ": " + src)
 
     def atom(self, e: ast.AST) -> str:
         s = self.expr(e)
-        return s if s.startswith("(") or s.startswith("[") or s.isidentifier() else f"({s})"
+        return s if s.startswith("(") or s.startswith("[") or s.startswith('"') or s.replace("_", "a").isalnum() else f"({s})"
 
     def cond(self, e: ast.AST) -> str:
+        src = ast.unparse(e)
+        if src in self.attrs:
+            return f"{self.attrs[src]} = true"
+        if isinstance(e, ast.UnaryOp) and isinstance(e.op, ast.Not):
+            return f"¬ ({self.cond(e.operand)})"
+        if isinstance(e, ast.BoolOp):
+            op = " ∧ " if isinstance(e.op, ast.And) else " ∨ "
+            return "(" + op.join(f"({self.cond(v)})" for v in e.values) + ")"
         if isinstance(e, ast.Compare) and len(e.ops) == 1:
+            l, r, op = e.left, e.comparators[0], e.ops[0]
+            if isinstance(op, (ast.In, ast.NotIn)):
+                neg = "¬ " if isinstance(op, ast.NotIn) else ""
+                if isinstance(r, ast.Name) and r.id in self.dicts:
+                    return f"{neg}(Py.dhas {r.id} {self.atom(l)} = true)"
+                if isinstance(r, (ast.Set, ast.List, ast.Tuple)) and all(isinstance(x, ast.Constant) for x in r.elts):
+                    return f"{neg}({self.atom(l)} ∈ [{', '.join(self.lit(x.value) for x in r.elts)}])"
+                raise Unsupported("membership " + src)
             ops = {ast.Eq: "=", ast.NotEq: "≠", ast.Lt: "<", ast.LtE: "≤", ast.Gt: ">", ast.GtE: "≥"}
-            if type(e.ops[0]) not in ops:
-                raise Unsupported("comparison")
-            return f"{self.expr(e.left)} {ops[type(e.ops[0])]} {self.expr(e.comparators[0])}"
-        raise Unsupported("condition " + ast.unparse(e))
+            if type(op) not in ops:
+                raise Unsupported("comparison " + src)
+            return f"{self.expr(l)} {ops[type(op)]} {self.expr(r)}"
+        if isinstance(e, ast.Name) or isinstance(e, ast.Attribute):
+            return f"{self.expr(e)} = true"
+        raise Unsupported("condition " + src)
 
     # ---------------------------------------------------------------- statements
-    def block(self, stmts: list[ast.stmt], ind: str) -> str:
-        if not stmts:
-            raise Unsupported("function may fall off its end")
-        s, rest = stmts[0], stmts[1:]
-        if isinstance(s, ast.Expr) and isinstance(s.value, ast.Constant) and isinstance(s.value.value, str):
-            return self.block(rest, ind)          # docstring
-        if isinstance(s, ast.Return):
-            if s.value is None:
-                raise Unsupported("bare return")
-            return f"{ind}{self.expr(s.value)}"
+    def ret(self, s: str) -> str:
+        return f"(Except.ok {s})" if self.raises else s
+
+    def skipped(self, s: ast.stmt) -> bool:
+        text = ast.unparse(s)
+        head = text.split("\n")[0]
+        if any(head.startswith(k) or text.startswith(k) for k in self.skip):
+            return True
+        # an `if` all of whose branches consist of skipped statements only (e.g. logging) has no effect
+        if isinstance(s, ast.If) and s.body and all(self.skipped(b) for b in s.body) and all(self.skipped(b) for b in s.orelse):
+            return True
+        return False
+
+    def raise_expr(self, s: ast.Raise) -> str:
+        if not self.raises:
+            raise Unsupported("raise in a target that is declared not to raise")
+        name = ast.unparse(s.exc.func) if isinstance(s.exc, ast.Call) else ast.unparse(s.exc)
+        return f'(Except.error "{name}")'
+
+    def simple(self, s: ast.stmt, ind: str):
+        """A statement that only updates variables: returns (lean line(s) ending in newline, assigned variable) or None."""
         if isinstance(s, (ast.Assign, ast.AnnAssign)):
             tgt = s.targets[0] if isinstance(s, ast.Assign) else s.target
-            if not isinstance(tgt, ast.Name) or s.value is None:
-                raise Unsupported("assignment target")
-            return f"{ind}let {tgt.id} := {self.expr(s.value)}\n" + self.block(rest, ind)
+            if s.value is None:
+                raise Unsupported("annotation without value")
+            tsrc = ast.unparse(tgt)
+            if tsrc in self.attrs:
+                return f"{ind}let {self.attrs[tsrc]} := {self.expr(s.value)}\n", self.attrs[tsrc]
+            if isinstance(tgt, ast.Name):
+                return f"{ind}let {tgt.id} := {self.expr(s.value)}\n", tgt.id
+            if isinstance(tgt, ast.Subscript) and isinstance(tgt.value, ast.Name) and tgt.value.id in self.dicts:
+                d = tgt.value.id
+                return f"{ind}let {d} := Py.dset {d} {self.atom(tgt.slice)} {self.atom(s.value)}\n", d
+            raise Unsupported("assignment target " + tsrc)
+        if isinstance(s, ast.AugAssign) and isinstance(s.op, (ast.Add, ast.Sub)):
+            op = "+" if isinstance(s.op, ast.Add) else "-"
+            tsrc = ast.unparse(s.target)
+            if tsrc in self.attrs:
+                v = self.attrs[tsrc]
+                return f"{ind}let {v} := ({v} {op} {self.expr(s.value)})\n", v
+            if isinstance(s.target, ast.Name):
+                v = s.target.id
+                return f"{ind}let {v} := ({v} {op} {self.expr(s.value)})\n", v
+            if isinstance(s.target, ast.Subscript) and isinstance(s.target.value, ast.Name) and s.target.value.id in self.dicts:
+                d = s.target.value.id
+                k = self.atom(s.target.slice)
+                return f"{ind}let {d} := Py.dset {d} {k} ((Py.dget {d} {k}) {op} {self.expr(s.value)})\n", d
+            raise Unsupported("augmented assignment " + tsrc)
         if isinstance(s, ast.Expr) and isinstance(s.value, ast.Call) and isinstance(s.value.func, ast.Attribute) \
                 and s.value.func.attr == "append" and isinstance(s.value.func.value, ast.Name) and len(s.value.args) == 1:
             v = s.value.func.value.id
-            return f"{ind}let {v} := {v} ++ [{self.expr(s.value.args[0])}]\n" + self.block(rest, ind)
-        if isinstance(s, ast.If) and not s.orelse and len(s.body) == 1:
-            b = s.body[0]
-            if isinstance(b, ast.Return) and b.value is not None:
-                return (f"{ind}if {self.cond(s.test)} then {self.expr(b.value)}\n{ind}else\n" + self.block(rest, ind + "  "))
-            if isinstance(b, ast.Assign) and isinstance(b.targets[0], ast.Name):
-                x = b.targets[0].id
-                return (f"{ind}let {x} := if {self.cond(s.test)} then {self.expr(b.value)} else {x}\n" + self.block(rest, ind))
+            return f"{ind}let {v} := {v} ++ [{self.expr(s.value.args[0])}]\n", v
+        if isinstance(s, ast.If) and not s.orelse and all(not isinstance(b, (ast.Return, ast.Raise)) for b in s.body):
+            # if c: <simple statements on ONE variable>
+            parts = [self.simple(b, ind + "    ") for b in s.body]
+            if any(p is None for p in parts):
+                return None
+            vs = {p[1] for p in parts}
+            if len(vs) != 1:
+                raise Unsupported("conditional update of several variables")
+            v = vs.pop()
+            body = "".join(p[0] for p in parts)
+            return f"{ind}let {v} := if {self.cond(s.test)} then (\n{body}{ind}    {v})\n{ind}  else {v}\n", v
+        if isinstance(s, ast.If) and len(s.body) == 1 and len(s.orelse) == 1:
+            a, b = self.simple(s.body[0], ""), self.simple(s.orelse[0], "")
+            if a and b and a[1] == b[1] and a[0].count("\n") == 1 and b[0].count("\n") == 1:
+                v = a[1]
+                ea = a[0].split(":=", 1)[1].strip()
+                eb = b[0].split(":=", 1)[1].strip()
+                return f"{ind}let {v} := if {self.cond(s.test)} then {ea} else {eb}\n", v
+        return None
+
+    def block(self, stmts: list[ast.stmt], ind: str, final: str | None = None) -> str:
+        if not stmts:
+            if final is not None:
+                return f"{ind}{self.ret(final)}"
+            raise Unsupported("function may fall off its end")
+        s, rest = stmts[0], stmts[1:]
+        if isinstance(s, ast.Expr) and isinstance(s.value, ast.Constant) and isinstance(s.value.value, str):
+            return self.block(rest, ind, final)          # docstring
+        if self.skipped(s):
+            return self.block(rest, ind, final)
+        if isinstance(s, ast.Return):
+            if s.value is None:
+                raise Unsupported("bare return")
+            return f"{ind}{self.ret(self.expr(s.value))}"
+        if isinstance(s, ast.Raise):
+            return f"{ind}{self.raise_expr(s)}"
+        sim = self.simple(s, ind)
+        if sim is not None:
+            return sim[0] + self.block(rest, ind, final)
+        if isinstance(s, ast.For):
+            # for k, f in d.items(): <simple statements on one dict>
+            it = s.iter
+            if isinstance(it, ast.Call) and isinstance(it.func, ast.Attribute) and it.func.attr == "items" \
+                    and isinstance(s.target, ast.Tuple) and len(s.target.elts) == 2 and not s.orelse:
+                k, f = (x.id for x in s.target.elts)
+                parts = [self.simple(b, ind + "      ") for b in s.body]
+                if any(p is None for p in parts):
+                    raise Unsupported("loop body " + ast.unparse(s.body[0]).split("\n")[0])
+                vs = {p[1] for p in parts}
+                if len(vs) != 1:
+                    raise Unsupported("loop updates several variables")
+                v = vs.pop()
+                body = "".join(p[0] for p in parts)
+                d = ast.unparse(it.func.value)
+                return (f"{ind}let {v} := List.foldl (fun ({v} : Py.Dict) (p : String × Rat) =>\n{ind}      let {k} := p.1; let {f} := p.2\n"
+                        f"{body}{ind}      {v}) {v} {d}\n" + self.block(rest, ind, final))
+            raise Unsupported("for loop " + ast.unparse(s).split("\n")[0])
+        if isinstance(s, ast.If):
+            # if c: return/raise …   [elif …]   [else: …]    followed by the rest
+            def branch(body):
+                return self.block(body, ind + "  ", final if not rest else None) if body else None
+            terminal = isinstance(s.body[-1], (ast.Return, ast.Raise))
+            if terminal and not s.orelse:
+                return f"{ind}if {self.cond(s.test)} then\n{self.block(s.body, ind + '  ')}\n{ind}else\n" + self.block(rest, ind + "  ", final)
+            if s.orelse:
+                # both branches continue with the rest (duplicated) unless they return
+                tb = self.block(s.body + rest, ind + "  ", final)
+                eb = self.block(s.orelse + rest, ind + "  ", final)
+                return f"{ind}if {self.cond(s.test)} then\n{tb}\n{ind}else\n{eb}"
         raise Unsupported("statement " + ast.unparse(s).split("\n")[0])
 
 
 def find_func(tree: ast.AST, name: str):
+    if "." in name:
+        cls, meth = name.split(".")
+        for node in ast.walk(tree):
+            if isinstance(node, ast.ClassDef) and node.name == cls:
+                for sub in node.body:
+                    if isinstance(sub, ast.FunctionDef) and sub.name == meth:
+                        return sub
+        return None
     for node in ast.walk(tree):
         if isinstance(node, ast.FunctionDef) and node.name == name:
             return node
     return None
 
 
+def body_of(fn: ast.FunctionDef, t: dict) -> tuple[list[ast.stmt], str | None]:
+    sl = t.get("slice")
+    if not sl:
+        return fn.body, None
+    kind, var, stop = sl
+    for node in fn.body:
+        if isinstance(node, ast.For) and var in ast.unparse(node.iter):
+            out = []
+            for s in node.body:
+                if stop in ast.unparse(s):
+                    break
+                out.append(s)
+            return out, t["result"]
+    raise Unsupported("loop not found")
+
+
 def translate_all() -> tuple[str, list[str]]:
     out = ["/- GENERATED by harness/translate_fns.py from /repo's sources — do not edit. -/",
-           "namespace Robotools.Generated", ""]
+           "import Robotools.Generated.Prelude", "namespace Robotools.Generated", ""]
     missing = []
-    for rel, fname, lname, binder, rty in TARGETS:
+    for t in TARGETS:
+        rel, fname, lname, binder = t["file"], t["func"], t["lean"], t["binder"]
+        rty = f"Except String ({t['rty']})" if t.get("raises") else t["rty"]
         try:
             fn = find_func(ast.parse((REPO / rel).read_text(encoding="utf-8")), fname)
             if fn is None:
                 raise Unsupported("function not found")
-            params = [a.arg for a in fn.args.args + fn.args.kwonlyargs]
-            body = Tr().block(fn.body, "  ")
-            out.append(f"/-- `{fname}({', '.join(params)})` of {rel}, translated statement by statement. -/")
+            stmts, final = body_of(fn, t)
+            body = Tr(t).block(stmts, "  ", final)
+            what = "the per-well step of the loop of " if t.get("slice") else ""
+            out.append(f"/-- {what}`{fname}` of {rel}, translated statement by statement. -/")
             out.append(f"def {lname} {binder} : {rty} :=\n{body}\n")
             out.append(f"def {lname}_translated : Bool := true\n")
-        except (Unsupported, OSError, SyntaxError) as e:
+        except (Unsupported, OSError, SyntaxError, KeyError) as e:
             missing.append(f"{fname}: {e}")
             # a sentinel that makes the obligation fail instead of silently passing
             out.append(f"/-- NOT TRANSLATABLE: {str(e)[:120]} -/")
-            out.append(f"def {lname} {binder} : {rty} := default\n")
+            dflt = "(Except.error \"untranslated\")" if t.get("raises") else "default"
+            out.append(f"def {lname} {binder} : {rty} := {dflt}\n")
             out.append(f"def {lname}_translated : Bool := false\n")
     out.append("end Robotools.Generated\n")
     return "\n".join(out), missing
